@@ -105,6 +105,66 @@ def rule_R12_2(ctx):
     return r
 
 
+def rule_R12_7(ctx):
+    import anchors
+    import inline
+    import c14
+    prog = ctx.prog
+    r = RuleResult("R12.7", "a spread operand is copied where it is "
+                   "evaluated: in a literal's item loop, every lock of a "
+                   "list/object cell sits in a loop that also evaluates items",
+                   "copying the spread operands in a second pass, after the "
+                   "later entries were evaluated, makes `{x.., k: f()}` see "
+                   "the writes `f()` makes to `x` (entries no longer take "
+                   "effect in source order)")
+    graph = prog.call_graph()
+    evs = {g.path for g in c14.expr_evaluators(prog)}
+    reach_ev = {p for p in prog.fns if evs & prog.reachable_from([p], graph)}
+    bm, sm, vm = anchors.binder_module(prog), anchors.scope_module(prog), anchors.value_module(prog)
+    n = 0
+    seen = set()
+    for f0 in prog.hand_fns():
+        if f0.is_closure or f0.from_expansion or f0.generated:
+            continue
+        if f0.module.startswith((bm, sm, vm)) or f0.module.startswith("builtins") or f0.module == "":
+            continue
+        if any(f0.path in inline.private_helpers(prog, g) for g in prog.hand_fns()
+               if g.path != f0.path and not g.is_closure and g.path in reach_ev):
+            continue          # analysed inside its owner's view
+        f = inline.view(prog, f0)
+        loops = f.natural_loops()
+        if not loops:
+            continue
+        outer = {h: b for h, b in loops.items() if not any(h in b2 and h2 != h for h2, b2 in loops.items())}
+        ev_loops = {h for h, b in outer.items()
+                    if any((not c.is_ptr) and c.res in reach_ev and c.bb in b for c in f.calls())}
+        if not ev_loops:
+            continue
+        for c in f.calls():
+            t = mir.mutex_locked_type(c)
+            if t is None or "SourcedValue" not in t or "HashMap" in t:
+                continue
+            hs = [h for h, b in outer.items() if c.bb in b]
+            if not hs:
+                continue
+            key = (f0.path, c.loc)
+            if key in seen:
+                continue
+            seen.add(key)
+            n += 1
+            if hs[0] in ev_loops:
+                r.ok()
+            else:
+                r.fail("%s | container copied outside the evaluating loop" % f0.path,
+                       "%s locks a %s cell in a loop that evaluates nothing, "
+                       "next to a loop that evaluates the items: operands are "
+                       "copied in a later pass than the one that evaluated "
+                       "them" % (f0.path, t.split("<")[0].split("::")[-1]), where=c.loc)
+    r.inst("cell locks inside item loops of evaluating functions: %d" % n)
+    r.require_floor("spread copies inside an evaluating loop", n, 2)
+    return r
+
+
 def run(ctx):
     import c19 as _c19
     r3 = _c19.rule_R19_2(ctx)
@@ -139,7 +199,7 @@ def run(ctx):
                 "the object while holding the object's lock (R02.1 on the binder)")
     r6.necessary_for = "`o[k] = v` with a key computed from `o` would abort instead of assigning"
     r6.inst("binder functions analysed: %d" % len(binders))
-    return [rule_R12_1(ctx), rule_R12_2(ctx), r3, r4, r5, r6]
+    return [rule_R12_1(ctx), rule_R12_2(ctx), r3, r4, r5, r6, rule_R12_7(ctx)]
 
 
 META = {
